@@ -7,3 +7,4 @@ pub mod elf_c19;
 pub mod elf_ids;
 pub mod elf_syms;
 pub mod perfdata;
+pub mod perfdata_bid;
